@@ -126,13 +126,27 @@ prop('C07',
                 ' against contracts stating the whole result of each part: part1 = ([fresh key][t-1 draws] polynomial, commitment G*coefficients, proof of knowledge '
                 '(kG, k + a0*c) with c = HDKG(enc(id)||enc(a0 G)||enc(kG))); part2 = f(l) for every sender l in the map and f(own id) kept; part3 = signing share = sum of '
                 'received shares + own share, verifying share = G*that, public package = evaluate_vss over the column-wise sum of ALL commitments (own included), group key = '
-                'constant term of the sum, threshold recorded, then the post_dkg hook. Theorems: an honest proof of knowledge verifies (thm_pok_complete); a share is accepted iff '
-                'it is f_l(own id) (thm_share_accepted_iff); the public package is a function of the commitment map, hence identical for all participants who complete on the same '
-                'round-one set (thm_same_commitments_same_public_package); key package internally consistent (thm_part3_internal_consistency).',
-     level_note=DKG_ASSUMED + ' Not yet machine-checked as one theorem: the composition "all honest => public package entry of i equals G * signing share of i and any t can sign" '
-                '(needs linearity of evaluate_vss over the column sums; the per-function contracts it rests on are proved).',
-     assumptions=['composition of the honest n-party run into one theorem is argued in DESIGN.md from the proved per-function contracts, not machine-checked',
-                  'Taproot post_dkg tweak: C18'],
+                'constant term of the sum, threshold recorded, then the post_dkg hook. COMPOSITION (lemmas/vprops_dkg2.rs, machine-checked from those contracts, no new axiom): '
+                'thm_honest_dkg -- if every participant of a finite identifier set got Ok from part1 (contract clause `value`: spec_part1), ran part2 on the broadcast packages of all '
+                'others (spec_part2_ok; thm_honest_part2_no_error proves no guard of part2 fires and every proof of knowledge verifies) and is handed the round-two package every other '
+                'participant made for it, then at EVERY participant no guard of part3 fires, every share passes its VSS check and the commitments sum up (thm_honest_part3_no_error), '
+                'part3 returns Ok((kp_i, pk_i)) (thm_honest_dkg_part3_returns: `value` clause of the part3 contract + default world), and with F = sum_l f_l the coefficient-wise sum '
+                'of the polynomials drawn in part1 (t coefficients): kp_i.signing_share = F(i) = sum_l f_l(i); kp_i.verifying_share = G*F(i) = pk_i.verifying_shares[i]; '
+                'pk_i.verifying_shares[j] = G*F(j) for every participant j; group key of both packages = G*F(0) with F(0) = sum of the constant terms = column-0 sum of the '
+                'commitments in ascending identifier order; threshold t in both packages; domain of the public package = the identifier set (thm_honest_dkg_output; the group commitment '
+                'is the commitment G*F of the sum polynomial: lemma_honest_group_commitment); all participants hold the same public key package (thm_honest_dkg_same_public_package); '
+                'the key material satisfies honest_keys(F, ..), the premise of the signing theorems, so any signer set of >= t participants with honest commitments aggregates to a '
+                'verifying signature (thm_honest_dkg_then_sign, composing with thm_honest_aggregate_succeeds of C01) and any >= t key packages interpolate to F(0) '
+                '(thm_honest_dkg_reconstruct). Further theorems: an honest proof of knowledge verifies (thm_pok_complete); a share is accepted iff it is f_l(own id) '
+                '(thm_share_accepted_iff); the public package is a function of the commitment map (thm_same_commitments_same_public_package).',
+     level_note=DKG_ASSUMED + ' The composition theorems are statements about the contracts\' spec functions: they hold for the code because every function of the chain is verified '
+                'against (or, for the items listed as assumed, trusted to satisfy) its contract; "delivery" is modelled as equality of the maps passed to part2/part3 with the maps the '
+                'senders\' calls returned (r1_view / r2_view). part1 returning Ok is a premise (it fails only if the suite has no HDKG or a commitment/nonce is the identity). n >= t is '
+                'not needed by the composition (validate_num_of_signers enforces it in part1). The group key G*F(0) may be the identity with probability 1/q (sum of the secrets zero): '
+                'the signing bridge has the premise "group key != identity", as C01 has. Taproot post_dkg tweak: C18.',
+     assumptions=['default world: post_dkg returns its arguments (premise default_world of thm_honest_dkg / thm_honest_dkg_part3_returns; Taproot: C18)',
+                  'part1 returned Ok at every participant (premise; the error cases are decided by the part1 contract)',
+                  'sum_commitments and the outlined commitments-map idiom of part3 satisfy their assumed contracts (Kani-backed, bounded)'],
      design_ref='DESIGN.md section 4 C07')
 
 prop('C08',
@@ -154,12 +168,21 @@ prop('C09',
                 'those arguments (all n, t, not only n in {3,4}): every step either returns exactly the specified error or key material satisfying spec_part3_pre (verifying share = '
                 'G*signing share, one group key in both packages, own threshold) -- thm_part3_internal_consistency; a round-two share is accepted iff it equals the evaluation at the '
                 'recipient of the polynomial committed in the round-one package FILED UNDER THE SAME SENDER (contract of part3 + thm_share_accepted_iff); equal round-one commitment maps '
-                'give equal public key packages (thm_same_commitments_same_public_package).',
+                'give equal public key packages (thm_same_commitments_same_public_package). Strong internal consistency (lemmas/vprops_dkg2.rs, NO assumption on the peers): for EVERY '
+                'completed part3 (no guard fired, every share accepted) whose commitments all have the length of the own one and whose round-2 secret package is what part2 made from a '
+                'part1 state (own share matches own commitment: lemma_own_state_consistent), the participant\'s entry in the public key package EQUALS its verifying share = G*signing '
+                'share (thm_part3_entry_matches: every accepted share satisfies G*s = evaluate_vss(C_sender)(own), evaluate_vss is linear over the column sums); and if the summed '
+                'commitment is the commitment G*a of a coefficient sequence a, the signing share is a(own id) and the package is honest_keys on a '
+                '(thm_part3_completed_share_on_committed_polynomial), so all participants completing on ONE commitment map hold shares of ONE polynomial and one public key package: the '
+                'premises of the signing theorems of C01. For the all-honest history the full composition is thm_honest_dkg (C07).',
      level_note=DKG_ASSUMED + ' part3 does not re-check commitment lengths: if a caller passes part3 a different round-one set than it passed part2, a longer commitment is silently '
-                'truncated by sum_commitments and the public package entry of the participant can differ from its verifying share; the consistency statement therefore has the premise '
-                '"all commitments have the same length" (enforced by part2 on the set it sees). Recorded in DESIGN.md section 5 as an observation, the docs require the same set.',
+                'truncated by sum_commitments and the public package entry of the participant can differ from its verifying share; thm_part3_entry_matches therefore has the premise '
+                '"all commitments have the length of the own one" (enforced by part2 on the set it sees). Recorded in DESIGN.md section 5 as an observation, the docs require the same set. '
+                '"Can sign together" for arbitrary (adversarial) commitments is proved under the premise that the summed commitment has a coefficient preimage a (true in a prime-order '
+                'group, where every element is a multiple of G; that existence is not among the group axioms, so it is a premise, not a derived fact).',
      assumptions=['absence of hidden state (no statics / interior mutability / threads in frost-core)',
-                  'public-package entry == G*signing share needs equal commitment lengths (premise; enforced by part2 for the set it is given)'],
+                  'public-package entry == G*signing share needs equal commitment lengths (premise of thm_part3_entry_matches; enforced by part2 for the set it is given)',
+                  'existence of discrete logarithms of the summed commitment (premise of thm_part3_completed_share_on_committed_polynomial; not axiomatised)'],
      design_ref='DESIGN.md section 4 C09')
 prop('C10',
      level_text='For every ciphersuite (abstract field/group), every (n,t), identifier set, remaining subset, old key material and RNG stream: Verus proves the real text of '
@@ -254,13 +277,15 @@ prop('C01',
                 'real text of ' + SIGN_FUNCS + ' against contracts that state the WHOLE result: sign == spec_sign (z_i = d_i + e_i*rho_i + lambda_i*s_i*c with rho, lambda, R, c '
                 'computed from the package in ascending identifier order), aggregate_custom satisfies agg_result_is (refusals in guard order; else (R, sum z_i) if it passes RFC 9591 '
                 'verification under the group key; else the cheater report), verify_signature_share == the RFC 9591 5.3 check. Property theorems (lemmas/vprops_sign.rs): for keys on a '
-                'degree t-1 polynomial (what C06/C07 establish) and any >= t signers with honest commitments, every honest share passes the share check and the aggregate verifies, '
+                'degree t-1 polynomial (what C06/C07 establish: lemma_dealer_keys_honest, thm_honest_dkg) and any >= t signers with honest commitments, every honest share passes the share check and the aggregate verifies, '
                 'so aggregation returns the signature.',
      level_note=SIGN_ASSUMED + ' Ordinary single-signer verification of the concrete suites (ed25519-dalek verify_strict, BIP-340) is outside the unit: the proof ends at the RFC 9591 '
                 'verification equation h*(z*B - c*A - R) == 0 with c = H2(enc(R)||enc(A)||msg) (VerifyingKey::verify); that the concrete suites implement this equation and the encodings '
                 'is T3/T4. The session must not hit the identity (vk, commitments, R != identity): the contract returns exactly GroupError in those cases.',
      assumptions=['honest nonces: commitments are G*d, G*e of the nonces used (C15 proves commit() produces such pairs)',
-                  'keys are shares of one polynomial of degree t-1 with verifying shares G*s_i and group key G*s (proved for dealer keys in C06, per-function for DKG in C07)',
+                  'keys are shares of one polynomial of degree t-1 with verifying shares G*s_i and group key G*s: PROVED for dealer keys (C06, lemma_dealer_keys_honest) and for keys from an honest '
+                  'distributed key generation (C07: thm_honest_dkg / thm_honest_dkg_output give honest_keys on the sum polynomial; thm_honest_dkg_then_sign composes it with '
+                  'thm_honest_aggregate_succeeds), so this is a premise only for keys of other origin',
                   'interoperability with external verifiers (dalek / libsecp256k1) is not decided here'],
      include=['C06', 'C07'],   # "keys from the trusted dealer or from distributed key generation": the key-generation contracts and theorems count for C01
      design_ref='DESIGN.md section 4 C01')
